@@ -52,7 +52,7 @@ pub struct OddKey {
 	pub version: Hex,
 }
 
-fn odd_key() -> BoxedStrategy<OddKey> {
+pub fn odd_key() -> BoxedStrategy<OddKey> {
 	(
 		gen::key_spec(),
 		0u8..4,
@@ -151,7 +151,7 @@ pub struct OddCa {
 	pub fill: u8,
 }
 
-fn odd_ca() -> BoxedStrategy<OddCa> {
+pub fn odd_ca() -> BoxedStrategy<OddCa> {
 	let lens = || proptest::collection::vec(prop_oneof![3 => 0u8..40, 1 => prop::sample::select(vec![4u8, 8, 9, 16, 31, 32, 33])], 0..3);
 	(
 		(gen::cheap_key(), lens(), any::<bool>(), lens(), proptest::collection::vec(any::<u8>(), 0..10), proptest::collection::vec(any::<u8>(), 0..5)),
